@@ -73,6 +73,15 @@ class Ctx:
         cmd = ["go", "build", "-tags", "verif"]
         if race:
             cmd.append("-race")
+        alt = os.environ.get("VERIF_REPO")
+        if alt:
+            # development aid only (never set by a registered command): build against another checkout,
+            # with its own work directory, so that /repo can be busy with a seeded change meanwhile
+            mod = os.path.join(self.work, "alt.mod")
+            with open(os.path.join(HARNESS, "go.mod")) as f, open(mod, "w") as o:
+                o.write(f.read().replace("=> /repo", "=> " + alt))
+            shutil.copy(os.path.join(HARNESS, "go.sum"), os.path.join(self.work, "alt.sum"))
+            cmd += ["-modfile", mod]
         cmd += ["-o", out, "./cmd/vh"]
         p = subprocess.run(cmd, cwd=HARNESS, env=goenv(), capture_output=True, text=True)
         if p.returncode != 0:
@@ -81,11 +90,17 @@ class Ctx:
             self.vh = out
         return out
 
+    def timing(self, what, dt):
+        t = self.notes.setdefault("timing_s", {})
+        t[what] = round(t.get(what, 0) + dt, 1)
+
     def run_vh(self, args, timeout=3600, binary=None, env=None, check=True, input_text=None):
         e = goenv()
         if env:
             e.update(env)
+        t0 = time.time()
         p = subprocess.run([binary or self.vh] + args, capture_output=True, text=True, timeout=timeout, env=e, input=input_text)
+        self.timing("vh " + (args[0] if args else ""), time.time() - t0)
         if check and p.returncode != 0:
             raise InfraError("vh %s failed (exit %d):\n%s" % (" ".join(args[:3]), p.returncode, (p.stdout + p.stderr)[-4000:]))
         return p
@@ -117,6 +132,7 @@ class Ctx:
                 raise InfraError("TLC timeout (%ds) on %s/%s" % (timeout, module, cfg))
         res = self.parse_tlc(outpath)
         res.update(module=module, cfg=cfg, wall_s=round(time.time() - t0, 2), rc=p.returncode, out=outpath)
+        self.timing("tlc " + module, time.time() - t0)
         self.tlc_runs.append({k: res[k] for k in ("module", "cfg", "generated", "distinct", "wall_s", "rc")})
         self.states += res["distinct"]
         self.transitions += res["generated"]
@@ -149,6 +165,7 @@ class Ctx:
     def tlc_parallel(self, jobs, timeout=1800):
         """jobs: list of (module, cfg, env, outname). Runs them concurrently (one worker each)."""
         procs = []
+        t_start = time.time()
         for (module, cfg, env, outname) in jobs:
             cmd = self.tlc_cmd(module, cfg, 1, None, "3g")
             outpath = os.path.join(self.work, outname)
@@ -174,6 +191,7 @@ class Ctx:
             if res["fatal"]:
                 raise InfraError("TLC failed on %s/%s: %s (see %s)" % (module, cfg, res["fatal"], outpath))
             results.append(res)
+        self.timing("tlc " + jobs[0][0], time.time() - t_start)
         self.tlc_runs.append(dict(module=jobs[0][0], cfg=jobs[0][1], shards=len(jobs),
                                   generated=sum(r["generated"] for r in results),
                                   distinct=sum(r["distinct"] for r in results)))
@@ -288,10 +306,14 @@ class Ctx:
         results = self.tlc_parallel(jobs, timeout=timeout)
         mism = []
         consumed = 0
+        self.last_classes = {}
         for i, r in enumerate(results):
             with open(r["out"], errors="replace") as f:
                 for line in f:
-                    if line.startswith('<<"MISMATCH"'):
+                    if line.startswith('<<"CLASS"'):
+                        k = line.strip().rsplit('"', 2)[1]
+                        self.last_classes[k] = self.last_classes.get(k, 0) + 1
+                    elif line.startswith('<<"MISMATCH"'):
                         m = re.match(r'<<"MISMATCH", (.+?), (\d+), "(\w+)", "(.*)">>$', line.strip())
                         mism.append(dict(id=json.loads(m[1]), line=cuts[i] + int(m[2]), ev=m[3], expected=unescape_tla_string(m[4])))
                     elif line.startswith('<<"CONSUMED"'):
